@@ -523,8 +523,8 @@ func (c *chroniclerV2) ensureWriter() error {
 	var writer *v2.FileWriter
 	var err error
 
-	if isNewFile && c.swampName != "" {
-		// New file: use V3 format with name in header area
+	if (isNewFile || v2.IsIncompleteFile(c.hydFilePath)) && c.swampName != "" {
+		// New file (or one whose creation was interrupted and is started again): use V3 format with name in header area
 		writer, err = v2.NewFileWriterWithName(c.hydFilePath, c.maxBlockSize, c.swampName)
 	} else {
 		// Existing file: preserve format (V2 or V3)
